@@ -69,6 +69,9 @@ func runC20(c *Ctx, r *Report) {
 	r.Doc("R-C20.4", "SignIdentity signs exactly the published public key and id signature; its result is the published public-key signature")
 	r.Doc("control", "engine positive/negative controls analysed on every run")
 	c208(c, r)
+	r.Doc("R-C20.10", "the keystore's signature check succeeds only on the true result of the public-key verification of that call")
+	sigCheckDominates(c, r, "R-C20.10", p.FuncI("keystore", "Keystore", "Verify"))
+	hasKeyPolarity(c, r)
 	r.Doc("R-C20.9", "the keystore and the identity code examine every error result before going on: a failed datastore write, key decode or signature is never followed by a cached key or a returned identity")
 	errDiscipline(c, r, "R-C20.9", func(fn *Fn) bool { return inPkgs(c.P, fn, "keystore", "identityprovider") },
 		"a key or identity is handed out although creating, storing, decoding or signing it failed — another keystore over the same datastore then sees a different (or no) key for the id", deliberateDiscards)
@@ -738,4 +741,116 @@ func writerOf2(p *Prog, v ssa.Value, sf *ssa.Function, depth int) string {
 		}
 	})
 	return out
+}
+
+// hasKeyPolarity: HasKey answers true only after a positive finding (a cache hit, a non-nil value from the
+// datastore), false only after a negative one (the datastore's lookup failed, the value is nil), or returns the
+// finding itself (`value != nil`).
+func hasKeyPolarity(c *Ctx, r *Report) {
+	p := c.P
+	r.Doc("R-C20.11", "HasKey answers 'present' only on a positive finding and 'absent' only on a negative one")
+	hk := p.FuncI("keystore", "Keystore", "HasKey")
+	// lookup flags and values: `v, ok := cache.Peek/Get(id)`, `value, err := store.Get(...)`
+	flag, val, errv := map[types.Object]bool{}, map[types.Object]bool{}, map[types.Object]bool{}
+	walkNoLit(hk.Body, func(n ast.Node) bool {
+		as, ok := n.(*ast.AssignStmt)
+		if !ok || len(as.Rhs) != 1 || len(as.Lhs) != 2 {
+			return true
+		}
+		call, ok := ast.Unparen(as.Rhs[0]).(*ast.CallExpr)
+		if !ok {
+			return true
+		}
+		se, ok := ast.Unparen(call.Fun).(*ast.SelectorExpr)
+		if !ok {
+			return true
+		}
+		id0, _ := as.Lhs[0].(*ast.Ident)
+		id1, _ := as.Lhs[1].(*ast.Ident)
+		if id0 == nil || id1 == nil {
+			return true
+		}
+		switch se.Sel.Name {
+		case "Peek", "Get", "Has":
+			o1 := p.ObjOf(hk, id1)
+			if o1 != nil && isErrorType(o1.Type()) {
+				errv[o1] = true
+				val[p.ObjOf(hk, id0)] = true
+			} else {
+				flag[o1] = true
+				val[p.ObjOf(hk, id0)] = true
+			}
+		}
+		return true
+	})
+	hf := &Flow{P: p, Fn: hk, Entry: Facts{}}
+	hf.Node = func(n ast.Node, f Facts) {
+		for _, id := range assignedIdents(n) {
+			if o := p.ObjOf(hk, id); flag[o] || val[o] || errv[o] {
+				delete(f, "found")
+				delete(f, "notfound")
+			}
+		}
+	}
+	hf.Edge = func(cond ast.Expr, taken bool, f Facts) {
+		for _, a := range splitCond(cond, taken) {
+			if id, ok := ast.Unparen(a.E).(*ast.Ident); ok && flag[p.ObjOf(hk, id)] {
+				if a.Truth {
+					f["found"] = true
+				}
+				continue
+			}
+			if x, isNil, ok := nilTest(a); ok {
+				if id, ok := ast.Unparen(x).(*ast.Ident); ok {
+					o := p.ObjOf(hk, id)
+					switch {
+					case val[o] && !isNil:
+						f["found"] = true
+					case val[o] && isNil:
+						f["notfound"] = true
+					case errv[o] && !isNil:
+						f["notfound"] = true
+					}
+				}
+			}
+		}
+	}
+	hf.Run()
+	nret := 0
+	hf.Exits(func(_ *cfgBlk, ret *ast.ReturnStmt, at Facts) {
+		if ret == nil || len(ret.Results) != 2 {
+			return
+		}
+		nret++
+		res := ast.Unparen(ret.Results[0])
+		ok, why := false, ""
+		switch x := res.(type) {
+		case *ast.Ident:
+			switch x.Name {
+			case "true":
+				ok, why = at["found"], "'present' is answered without a positive finding on this path"
+			case "false":
+				ok, why = at["notfound"], "'absent' is answered without a negative finding on this path"
+			default:
+				ok = flag[p.ObjOf(hk, x)]
+				why = "the answer is a variable that is not the found-flag of a lookup"
+			}
+		case *ast.BinaryExpr:
+			// the finding itself: value != nil
+			if isNilIdent(x.Y) || isNilIdent(x.X) {
+				side := x.X
+				if isNilIdent(x.X) {
+					side = x.Y
+				}
+				if id, isID := ast.Unparen(side).(*ast.Ident); isID && val[p.ObjOf(hk, id)] {
+					ok = x.Op == token.NEQ
+					why = "the answer is `" + types.ExprString(x) + "`: present and absent are swapped"
+				}
+			}
+		default:
+			why = "the answer is an expression the rule cannot relate to a lookup"
+		}
+		r.Check(ok, "R-C20.11", r.Key("R-C20.11", hk, "answer", ""), ret.Pos(), "the answer follows the finding", "HasKey: "+why+": a key that was created is reported absent, or an id that was never created is reported present")
+	})
+	r.Floor("R-C20.11", "answers of HasKey", nret, 2)
 }
